@@ -315,6 +315,18 @@ def gen_C04(rng, tier):
                     return prog_ok(rng, maxticks=2, sleep=rng.choice([11.0, 13.5]))
                 return prog_die(rng) if i == dpos else prog_ok(rng, maxticks=2, sleep=rng.choice(slow))
             add_map(rng, c, ops, kind=kind, n=n, mkitem=mk, chunks=rng.choice([1, 1, 2, None]))
+        elif pc['maxtasksperchild'] and pc['processes'] > 1 and rng.random() < 0.6:
+            # nobody dies: workers that finished chunks of a map leave on schedule while one part of it keeps
+            # running past the 10 s after which a loss would be reported
+            n = rng.choice([4, 6, 9])
+            st2 = {'i': 0, 'slow': rng.randrange(n)}
+
+            def mk2():
+                i = st2['i']
+                st2['i'] += 1
+                return prog_ok(rng, maxticks=2, sleep=rng.choice([11.0, 13.5]) if i == st2['slow']
+                               else rng.choice([0, 0.05, 0.3]))
+            add_map(rng, c, ops, n=n, mkitem=mk2, chunks=rng.choice([1, 2, 2, 3]))
         else:
             add_map(rng, c, ops, n=rng.choice([2, 4, 8]))
     if rng.random() < 0.3:
